@@ -354,7 +354,9 @@ class Session:
 
         self.compression_method = record.binary[index + 2]
 
-        extensions_length = int.from_bytes(record.binary[index + 3: index + 5], 'big')
+        # the extensions block is optional; it must lie inside the ServerHello message, whose record may carry further messages
+        hello_end = 4 + int.from_bytes(record.binary[1:4], 'big')
+        extensions_length = int.from_bytes(record.binary[index + 3: index + 5], 'big') if index + 5 <= hello_end else 0
         extensions_bin = record.binary[index + 5: index + 5 + extensions_length]
 
         self.extensions = {}
